@@ -14,6 +14,7 @@ varsH == <<st, count, creator, explicit, h, m, last, births, deaths>>
 MCObjType   == <<"Base", "Derived">>
 MCSlotType4 == <<"Base", "Base", "Derived", "Derived">>
 MCSlotType3 == <<"Base", "Base", "Derived">>
+MCSlotTypeCBD == <<"CBase", "Base", "Derived">>
 MembersDerived == {"Derived"}
 MembersNone    == {}
 PolicyAny   == [mc |-> "any", ma |-> "any", sm |-> "any", cmc |-> "any", cma |-> "any"]
